@@ -179,6 +179,12 @@ fn mutations(stack: &[Value], keys: &[i64]) -> Vec<(String, Vec<Value>)> {
                 }
             }
         }
+        // an empty dissatisfaction replaced by a real signature: over-satisfaction of thresholds / multisigs
+        if stack[p]["t"] == "e0" {
+            for k2 in keys {
+                reps.push(e("sig", *k2, "good"));
+            }
+        }
         for (ri, r) in reps.into_iter().enumerate() {
             if r != stack[p] {
                 let mut v = stack.to_vec();
